@@ -277,11 +277,11 @@ def replay_decode(ctx, prog, u, pc, claim):
     r, m, _ = ctx.solve(list(pc) + extra + [z3.Not(claim)])
     if r != 'sat':
         # second attempt: components drawn from a menu of concrete texts, some with escapes, whose decoding and length are known
-        menu = {'': '', 'guest': 'guest', 'ab': 'ab', 'abcd': 'abcd', '%2f': '/', '%41': 'A', 'a%20b': 'a b', 'v%2fh': 'v/h'}
+        menu = {'': '', 'guest': 'guest', 'ab': 'ab', 'abcd': 'abcd', '%2f': '/', '%41': 'A', 'a%20b': 'a b', 'v%2fh': 'v/h', 'u%2561': 'u%61', 'u%61': 'ua'}
         ax = []
         for t_, d_ in menu.items():
             ax += [PD(L(t_)) == L(d_), LEN(L(t_)) == len(t_)]
-        ax += [PD(L(d_)) == L(d_) for d_ in ('/', 'A', 'a b', 'v/h')]
+        ax += [z3.And(PD(L(d_)) == L(d_), LEN(L(d_)) == len(d_)) for d_ in sorted(set(menu.values()) - set(menu))]   # decoded texts contain no escapes
         extra2 = [u.has_host, u.host != L(''), u.has_path, u.port_some == z3.BoolVal(False)]
         for c in [u.username, u.password] + u.segs:
             extra2.append(z3.Or(*[c == L(t_) for t_ in menu]))
